@@ -254,7 +254,10 @@ CLAIMED = {
              '3D closest-point-on-segment routine applied to embedded data returns the embedded result of the 2D routine (same '
              'parameter, same clamp branch); point_at agrees; both siblings\' subdivide_evenly return n+1 points for all n in 1..500 '
              '(bit-exact PrimFloat model); the generated Mesh3D._quad_centroid of a plane-embedded convex quad is proved to be the embedding of '
-             'the 2D area centroid for every orthonormal frame (and run against the implementation). Every other shared zero-argument member of the six sibling pairs and the shared '
+             'the 2D area centroid for every orthonormal frame (and run against the implementation); Polyline3D.remove_colinear_vertices '
+             '(generated, after the repair that made it judge each vertex against the last KEPT one) is proved to be the same keep-if-corner scan '
+             'as the 2D routine with the test |(a - v) x (n - v)| >= tolerance, the two tests are proved equal on plane-embedded points (sqrt '
+             'exact on squares), and therefore the siblings are proved to keep the same vertices of every embedded polyline. Every other shared zero-argument member of the six sibling pairs and the shared '
              'parametrised methods (closest point, distance, subdivision, intersection, clean-up, containment, join_segments) are '
              'compared by introspection in the XY plane and in random rational planes.',
         note='Trusted: Coq kernel (+ primitive floats), py2coq, FloatLoops.v correspondence, harness. Members beyond the proved ones '
